@@ -164,6 +164,61 @@ def classify_out_site(fn, el, call, argi):
     return out, "other:" + show(a)
 
 
+def must_use(fn, blk, idx, var):
+    """Every path leaving the definition of `var` at (blk, idx) must read it before the variable is
+    redefined and before any return other than `return 0`.  Returns None when that holds, else
+    (reason, loc) for the first offending path end found."""
+    seen = set()
+    work = [(blk, idx + 1)]
+    while work:
+        bid, i = work.pop()
+        if (bid, i) in seen:
+            continue
+        seen.add((bid, i))
+        b = fn.blocks[bid]
+        stop = False
+        for el in b.elems[i:]:
+            if not el.top:
+                continue
+            if reads_excluding_pure_defs(el.e, var):
+                stop = True
+                break
+            if kills(el.e, var):
+                return ("overwritten before any use", el.loc)
+            if kind(el.e) == "return":
+                if el.e[1] is None or is_int(el.e[1], 0) or "ARG_CHECK" in el.macros:
+                    stop = True
+                    break
+                return ("function returns `%s` without consulting it" % show(el.e[1])[:60], el.loc)
+        if stop:
+            continue
+        if b.term and b.cond is not None and _reads_var(b.cond, var):
+            continue
+        succs = [s for s in b.succs if s is not None]
+        if not succs and bid != fn.exit:
+            continue   # noreturn call
+        for s in succs:
+            if s == fn.exit:
+                # fell off the end of a void function without a use
+                if fn.ret == "void":
+                    return ("function ends without consulting it", fn.loc)
+                continue
+            work.append((s, 0))
+    return None
+
+
+def _reads_var(e, var):
+    return any(x[0] == "var" and x[1] == var for x in walk(e))
+
+
+def _must_for_site(fn, el, call, spec, how):
+    if spec[0] == "out" and how.startswith("flag:"):
+        return must_use(fn, el.blk, el.idx, how[5:])
+    if spec[0] == "ret" and how.startswith("assigned:"):
+        return must_use(fn, el.blk, el.idx, how[9:])
+    return None
+
+
 def analyse(prog):
     """Examine every call site of every (seed or derived) fallible function."""
     fall = dict(SEED)
@@ -184,7 +239,8 @@ def analyse(prog):
                     out, how = classify_out_site(fn, el, call, spec[1])
                 key = (fn.name, call[2], dec)
                 sites[key] = {"fn": fn, "loc": call[2], "decoder": dec, "style": spec[0], "how": how,
-                              "outcomes": sorted(out.kinds), "witness": out.witness[:3], "call": show(call)[:200]}
+                              "outcomes": sorted(out.kinds), "witness": out.witness[:3], "call": show(call)[:200],
+                              "must": _must_for_site(fn, el, call, spec, how)}
                 for k in out.kinds:
                     if k == "return" and fn.ret == "int" and fn.name not in fall:
                         fall[fn.name] = ("ret",)
@@ -214,7 +270,16 @@ def obligations(prog):
             continue   # a reducing decode: R-RED decides whether that is legitimate
         ek = "%s:%s" % (s["fn"].name, s["decoder"])
         text = "failure indicator of %s must reach a branch, the return value or an out-parameter of %s" % (s["decoder"], s["fn"].name)
-        if s["outcomes"]:
+        if s["outcomes"] and s["must"] is not None and ek not in exc:
+            if ek + ":lost-path" in exc:
+                used.add(ek + ":lost-path")
+                obs.append(Obligation("R-CHK", oid, s["loc"], s["fn"].name, text, True,
+                                      "used (%s), but not on every path: %s at %s; accepted by named exception" % (s["how"], s["must"][0], s["must"][1]),
+                                      exception=exc[ek + ":lost-path"]))
+            else:
+                obs.append(Obligation("R-CHK", oid, s["loc"], s["fn"].name, text, False,
+                                      "on some path the indicator (%s) is lost: %s at %s; call: %s" % (s["how"], s["must"][0], s["must"][1], s["call"])))
+        elif s["outcomes"]:
             w = s["witness"][0]
             obs.append(Obligation("R-CHK", oid, s["loc"], s["fn"].name, text, True,
                                   "%s via %s at %s: %s" % (s["how"], w[0], w[1], w[2][:120])))
